@@ -242,6 +242,34 @@ pub fn c14(rep: &mut Report, n: usize, seed: u64) {
         for h in &hays {
             c14_compare(rep, &mut rng, &c.opt, &c.pat, &c.flags.to_string(), h, false, &mut done);
         }
+        // the UTF-16 IR semantics model (Sem16) against the utf16 build, on well-formed and on arbitrary units
+        {
+            let cps: Vec<u32> = c.pat.chars().map(|ch| ch as u32).collect();
+            let fs = c.flags.to_string();
+            if let Ok(ir) = regress::verif::dump_ir_canon(cps.iter().copied(), make_flags(&fs, false)) {
+                let ir = ir.replace(' ', "~");
+                let mut unit_sets: Vec<Vec<u16>> = hays.iter().take(2).map(|h| ast::to_string(h).encode_utf16().collect()).collect();
+                let l = rng.below(6);
+                unit_sets.push((0..l).map(|_| *rng.pick(&[0xD83Du16, 0xDE00, 0x41, 0x61, 0x6B, 0x212A, 0xD801, 0xDC28])).collect());
+                for units in unit_sets.iter() {
+                    let start = rng.below(units.len() + 1);
+                    for ucs2 in [false, true] {
+                        regress::verif::fuel::reset(1_000_000);
+                        let r = guarded(std::panic::AssertUnwindSafe(|| if ucs2 { c.opt.find_from_ucs2(units, start).next() } else { c.opt.find_from_utf16(units, start).next() }));
+                        let (_, _, exhausted) = regress::verif::fuel::report();
+                        regress::verif::fuel::reset(u64::MAX);
+                        let reply = match r {
+                            Err(_) => "panic".to_string(),
+                            Ok(_) if exhausted => "fuel".to_string(),
+                            Ok(None) => "none".to_string(),
+                            Ok(Some(m)) => format!("m {}", fmt_matches(&[m])),
+                        };
+                        let hex = if units.is_empty() { "-".to_string() } else { units.iter().map(|u| format!("{:04x}", u)).collect::<String>() };
+                        rep.tie(format!("{} {} {} {} {}", if ucs2 { "semfind16ucs2" } else { "semfind16" }, c.flags.to_token(), ir, hex, start), reply);
+                    }
+                }
+            }
+        }
         // arbitrary u16 input incl. lone surrogates: no panic, ranges within the slice
         for _ in 0..4 {
             let l = rng.below(8);
@@ -281,6 +309,60 @@ pub fn c14(rep: &mut Report, n: usize, seed: u64) {
         }
     }
 
+    // ill-formed UTF-16 around back-references and one-character loops: every unit array up to length 5 over
+    // {lead surrogate, trail surrogate, 'A'}, every start: no panic, termination within a step budget,
+    // ranges inside the slice and never between the halves of a pair
+    let mut arrays: Vec<Vec<u16>> = vec![vec![]];
+    let mut cur: Vec<Vec<u16>> = vec![vec![]];
+    for _ in 0..5 {
+        let mut nxt = vec![];
+        for p in &cur {
+            for u in [0xD83Du16, 0xDE00, 0x41] {
+                let mut q = p.clone();
+                q.push(u);
+                nxt.push(q);
+            }
+        }
+        arrays.extend(nxt.iter().cloned());
+        cur = nxt;
+    }
+    for pat in ["(.)A\\1.*X", "(.)\\1+", "(?:(.)A\\1.*)*Z", "(..)\\1", "(.)(?<=\\1.)", "(.).*\\1", "(?<=(.))A\\1*", "(.)\\1.*?$", "(?:(.)\\1?)+A", "(.)A(?!\\1.)"] {
+        for fs in ["", "u", "i", "iu"] {
+            let Ok(re) = compile(pat, fs, false) else { continue };
+            for units in arrays.iter() {
+                for start in 0..=units.len() {
+                    for ucs2 in [false, true] {
+                        done += 1;
+                        rep.count("illformed-u16");
+                        let label = format!("/{}/{} on u16 {:x?} from {} ({})", pat, fs, units, start, if ucs2 { "ucs2" } else { "utf16" });
+                        regress::verif::fuel::reset(1_000_000);
+                        let r = guarded(std::panic::AssertUnwindSafe(|| {
+                            let ms: Vec<regress::Match> = if ucs2 { re.find_from_ucs2(units, start).take(16).collect() } else { re.find_from_utf16(units, start).take(16).collect() };
+                            ms
+                        }));
+                        let (_, _, exhausted) = regress::verif::fuel::report();
+                        regress::verif::fuel::reset(u64::MAX);
+                        rep.case(&label, true);
+                        if exhausted {
+                            rep.violation("impl-vs-spec:C14", "search did not finish within 1 000 000 steps".into(), label.clone());
+                        }
+                        match r {
+                            Err(msg) => rep.violation("panic:C14", format!("search panicked: {}", msg), label.clone()),
+                            Ok(ms) => {
+                                for m in ms {
+                                    let split = |p: usize| !ucs2 && p > 0 && p < units.len() && (0xD800..0xDC00).contains(&units[p - 1]) && (0xDC00..0xE000).contains(&units[p]);
+                                    let bad = |r: &std::ops::Range<usize>| !(r.start <= r.end && r.end <= units.len()) || split(r.start) || split(r.end);
+                                    if bad(&m.range) || m.captures.iter().flatten().any(|r| bad(r)) {
+                                        rep.violation("impl-vs-spec:C14", format!("range {:?} / captures {:?} outside the slice or inside a surrogate pair", m.range, m.captures), label.clone());
+                                    }
+                                }
+                            }
+                        }
+                    }
+                }
+            }
+        }
+    }
     // case-insensitive back-references over characters whose case partners differ in encoded length or
     // fold differently under the legacy and the Unicode relation, through all three entry points
     let classes: &[&[u32]] = &[
